@@ -113,6 +113,9 @@ func init() {
 			if n%7 == 3 {
 				p.Cfg.Extra = map[string]int64{"collide": 1} // two configured keys with one 32-bit key ID
 			}
+			if n%7 == 2 {
+				p.Cfg.Extra = map[string]int64{"samename": 1} // every configured key under one key name, told apart by key material only
+			}
 			if n%7 == 6 && len(p.Cfg.Logs) >= 2 {
 				// two logs on one key whose origins differ by a trailing slash only
 				p.Cfg.Logs[1].Origin, p.Cfg.Logs[1].Key = p.Cfg.Logs[0].Origin+"/", p.Cfg.Logs[0].Key
@@ -1126,6 +1129,16 @@ func init() {
 				out.Viol = append(out.Viol, Violation{Class: "duplicate_config_accepted", Sig: "duplicate_config_accepted", Detail: fmt.Sprintf("a configuration naming origin %q twice was accepted by AsLogMap", dup.Origin)})
 			}
 			out.Stats.Probes["duplicate_configs_refused"]++
+			if p.Seed%16 == 3 {
+				// the assembled service refuses it too: Main returns an error instead of serving with one of the two entries
+				refused, merr, infra := mainRefusesConfig(t, p, w, cfg)
+				if infra != "" {
+					out.Infra = append(out.Infra, "Main on a duplicate configuration: "+infra)
+				} else if !refused {
+					out.Viol = append(out.Viol, Violation{Class: "duplicate_config_accepted", Sig: "duplicate_config_accepted/main", Detail: fmt.Sprintf("omniwitness.Main did not refuse a configuration naming origin %q twice: after 5 simulated seconds it was serving or had returned %v", dup.Origin, merr)})
+				}
+				out.Stats.Probes["duplicate_configs_refused_by_main"]++
+			}
 			// one identity everywhere: for origins of unusual but legal shape every loader must file the log under
 			// hex(sha256("o:"+origin)) of the origin exactly as written (the first line of its checkpoints)
 			odd := []string{" leading blank", "trailing blank ", "tab\tinside", "UPPER/lower", "ünïcödé/log", "a/b/c/d", "two  blanks", "dot.", "x"}
